@@ -90,6 +90,7 @@ NBITS = 6
 JUMPS = ("brk", "cont", "ret", "raise")
 
 PRELUDE = '''
+from typing import Literal
 def cond() -> bool: return True
 def seq() -> list[int]: return []
 def boom() -> None: pass
@@ -103,9 +104,11 @@ class NoSup:
 
 
 # ---------------------------------------------------------------- rendering
-def render(stmts, ind, out, tag, mode="pya"):
-    """mode 'pya': source for pyanalyze; mode 'exec': instrumented source run under CPython."""
+def render(stmts, ind, out, tag, mode="pya", nm=None):
+    """mode 'pya': source for pyanalyze; mode 'exec': instrumented source run under CPython.
+    nm: variable name -> name in the rendered text (global variants use one module-level name per function)."""
     p = " " * ind
+    nm = nm or {}
     if not stmts:
         out.append(p + "pass")
         return
@@ -114,21 +117,21 @@ def render(stmts, ind, out, tag, mode="pya"):
     for s in stmts:
         k = s[0]
         if k == "asg":
-            out.append("%s%s = %d" % (p, s[1], s[2]))
+            out.append("%s%s = %d" % (p, nm.get(s[1], s[1]), s[2]))
         elif k == "use":
             if ex:
-                out.append("%stry: R.rec(%d, %s)" % (p, s[2], s[1]))
+                out.append("%stry: R.rec(%d, %s)" % (p, s[2], nm.get(s[1], s[1])))
                 out.append("%sexcept NameError: R.rec(%d, 'U')" % (p, s[2]))
             else:
-                out.append("%sreveal_type(%s)  #%sU%d" % (p, s[1], tag, s[2]))
+                out.append("%sreveal_type(%s)  #%sU%d" % (p, nm.get(s[1], s[1]), tag, s[2]))
         elif k == "call":
             out.append("%s%sboom()" % (p, R))
         elif k == "if":
             out.append("%sif %scond():" % (p, R))
-            render(s[1], ind + 4, out, tag, mode)
+            render(s[1], ind + 4, out, tag, mode, nm)
             if s[2]:
                 out.append(p + "else:")
-                render(s[2], ind + 4, out, tag, mode)
+                render(s[2], ind + 4, out, tag, mode, nm)
         elif k in ("while", "for"):
             if k == "while":
                 always, body, orelse = s[1], s[2], s[3]
@@ -139,12 +142,12 @@ def render(stmts, ind, out, tag, mode="pya"):
             if ex:
                 out.append(p + "    R.tick()")
                 if body:
-                    render(body, ind + 4, out, tag, mode)
+                    render(body, ind + 4, out, tag, mode, nm)
             else:
-                render(body, ind + 4, out, tag, mode)
+                render(body, ind + 4, out, tag, mode, nm)
             if orelse:
                 out.append(p + "else:")
-                render(orelse, ind + 4, out, tag, mode)
+                render(orelse, ind + 4, out, tag, mode, nm)
         elif k == "brk":
             out.append(p + "break")
         elif k == "cont":
@@ -155,28 +158,86 @@ def render(stmts, ind, out, tag, mode="pya"):
             out.append(p + ("raise R.err()" if ex else "raise ValueError"))
         elif k == "try":
             out.append(p + "try:")
-            render(s[1], ind + 4, out, tag, mode)
+            render(s[1], ind + 4, out, tag, mode, nm)
             hs = s[2]
             for i, h in enumerate(hs):
                 out.append("%sexcept %s:" % (p, "KeyError" if (ex and i < len(hs) - 1) else "Exception"))
-                render(h, ind + 4, out, tag, mode)
+                render(h, ind + 4, out, tag, mode, nm)
             if s[3]:
                 out.append(p + "else:")
-                render(s[3], ind + 4, out, tag, mode)
+                render(s[3], ind + 4, out, tag, mode, nm)
             if s[4] is not None:
                 out.append(p + "finally:")
-                render(s[4], ind + 4, out, tag, mode)
+                render(s[4], ind + 4, out, tag, mode, nm)
         elif k == "with":
             out.append("%swith %s%s():" % (p, R, ("sup" if s[1] else "nosup") if ex else ("Sup" if s[1] else "NoSup")))
-            render(s[2], ind + 4, out, tag, mode)
+            render(s[2], ind + 4, out, tag, mode, nm)
         else:
             raise ValueError(k)
 
 
-def text(prog):
+# ---------------------------------------------------------------- scope kinds
+# How the variables of a skeleton are bound: 'l' plain local (unbound on entry), 'p' parameter with the literal INIT,
+# 'g' `global` (module binds INIT), 'n' `nonlocal` in a nested function (the enclosing function binds INIT).
+KINDS = "lpgn"
+INIT = 0
+
+
+class Prog(list):
+    """A skeleton (list of statements) together with the scope kind of its variables."""
+    kind = "l"
+
+
+def with_kind(prog, kind):
+    q = Prog(prog)
+    q.kind = kind
+    return q
+
+
+def kind_of(prog):
+    return getattr(prog, "kind", "l")
+
+
+def function_source(prog, idx="", mode="pya"):
+    """The lines of the complete rendering of one skeleton for its scope kind (pya: function f<idx>, uses tagged
+    F<idx>U<u>; exec: function f(R))."""
+    kind = kind_of(prog)
+    ex = mode == "exec"
+    tag = "F%s" % idx if idx != "" else ""
+    fn = "f" if ex else "f%s" % idx
+    arg = "R" if ex else ""
     out = []
-    render(prog, 4, out, "")
-    return "\n".join(["def f():"] + out)
+    if kind == "l":
+        out.append("def %s(%s):" % (fn, arg))
+        render(prog, 4, out, tag, mode)
+    elif kind == "p":
+        ps = ", ".join(("%s=%d" if ex else "%s: Literal[%d] = %d") % ((v, INIT) if ex else (v, INIT, INIT)) for v in VARS)
+        out.append("def %s(%s):" % (fn, (arg + ", " + ps) if arg else ps))
+        render(prog, 4, out, tag, mode)
+    elif kind == "g":
+        nm = {v: v if ex else "%s%s" % (v, idx) for v in VARS}
+        if not ex:
+            for v in VARS:
+                out.append("%s = %d" % (nm[v], INIT))
+        out.append("def %s(%s):" % (fn, arg))
+        out.append("    global " + ", ".join(nm[v] for v in VARS))
+        render(prog, 4, out, tag, mode, nm)
+    elif kind == "n":
+        out.append("def %s(%s):" % ("f" if ex else "o%s" % idx, arg))
+        for v in VARS:
+            out.append("    %s = %d" % (v, INIT))
+        inner = "g" if ex else fn
+        out.append("    def %s():" % inner)
+        out.append("        nonlocal " + ", ".join(VARS))
+        render(prog, 8, out, tag, mode)
+        out.append("    %s()" % inner)
+    else:
+        raise ValueError(kind)
+    return out
+
+
+def text(prog):
+    return "\n".join(function_source(prog))
 
 
 def walk(stmts):
@@ -246,7 +307,9 @@ def enc(stmts):
 
 
 def line_of(prog):
-    return " ".join(enc(prog))
+    k = kind_of(prog)
+    pre = [] if k == "l" else ["k:%s:%d" % (k, INIT)]
+    return " ".join(pre + enc(prog))
 
 
 def parse_driver(line):
@@ -287,8 +350,7 @@ def pyanalyze_results(progs, batch=400):
         chunk = progs[b0:b0 + batch]
         src = [PRELUDE]
         for i, p in enumerate(chunk):
-            src.append("def f%d():" % i)
-            render(p, 4, src, "F%d" % i)
+            src += function_source(p, str(i))
         code = "\n".join(src) + "\n"
         lines = code.split("\n")
         try:
@@ -489,12 +551,25 @@ def cfg_reaching(prog, lib):
     res = {}
     for u, v in uses_of(prog):
         res.setdefault(u, set())
+    kind = kind_of(prog)
     for var in VARS:
         fl = Flow(lib, var)
-        fl.block(prog, {"U"}, ())
+        fl.block(prog, entry_state(prog, var, kind, lib), ())
         for u, vals in fl.uses.items():
             res[u] = set(vals)
     return {u: frozenset(v) for u, v in res.items()}
+
+
+def entry_state(prog, var, kind, lib):
+    """What may be current when the function is entered. The CFG semantics is the same for every scope kind, only
+    the entry state differs: a local is unbound, a parameter holds its literal, a global / nonlocal name holds the
+    binding made outside and -- liberal reading -- possibly anything the function itself assigns to it (the function
+    may have been called before)."""
+    if kind == "l":
+        return {"U"}
+    if kind == "p" or not lib:
+        return {INIT}
+    return {INIT} | {s[2] for s in walk(prog) if s[0] == "asg" and s[1] == var}
 
 
 def has_dead_code(prog):
@@ -583,10 +658,10 @@ _BITSTRINGS = {}
 
 def execute(prog, nbits=NBITS):
     """Definitions actually observed at each use over all runs with bit strings of length nbits."""
-    src = ["def f(R):"]
-    render(prog, 4, src, "", mode="exec")
+    src = function_source(prog, mode="exec")
     ns = {}
     exec("\n".join(src), ns)
+    is_global = kind_of(prog) == "g"
     two = any(s[0] == "try" and len(s[2]) > 1 for s in walk(prog))
     R = _Runtime(two)
     bs = _BITSTRINGS.get(nbits)
@@ -595,6 +670,9 @@ def execute(prog, nbits=NBITS):
     f = ns["f"]
     for bits in bs:
         R.start(bits)
+        if is_global:
+            for v in VARS:
+                ns[v] = INIT
         try:
             f(R)
         except _Stop:
@@ -787,6 +865,76 @@ def random_prog(rng, budget=12, depth=3, nvars=2, allow_dead=False):
             return _renumber(p)
 
 
+# ---------------------------------------------------------------- translator
+def _lean_strs(xs):
+    return "[" + ", ".join('"%s"' % x.replace("\\", "\\\\").replace('"', '\\"') for x in xs) + "]"
+
+
+def scan_scope_set(repo):
+    """Classify the statements of FunctionScope.set (the one place where an assignment enters the bookkeeping):
+    decl     -- the branch for `value` being a ReferencingValue (the global / nonlocal declaration itself)
+    always   -- executed for every assigned value, whatever backs the name
+    if_ref / if_not_ref -- only when the name is / is not backed by a ReferencingValue
+    other    -- under any other condition."""
+    import ast
+    tree = ast.parse(open(os.path.join(repo, "pyanalyze", "stacked_scopes.py")).read())
+    fn = None
+    for node in ast.walk(tree):
+        if isinstance(node, ast.ClassDef) and node.name == "FunctionScope":
+            for ch in node.body:
+                if isinstance(ch, ast.FunctionDef) and ch.name == "set":
+                    fn = ch
+    if fn is None:
+        raise ValueError("FunctionScope.set not found")
+    res = {"decl": [], "always": [], "if_ref": [], "if_not_ref": [], "other": []}
+
+    def norm(st):
+        return " ".join(ast.unparse(st).split())
+
+    def is_ref_test(t, name):
+        return (isinstance(t, ast.Call) and isinstance(t.func, ast.Name) and t.func.id == "isinstance"
+                and len(t.args) == 2 and isinstance(t.args[0], ast.Name) and t.args[0].id == name
+                and isinstance(t.args[1], ast.Name) and t.args[1].id == "ReferencingValue")
+
+    for st in fn.body:
+        if isinstance(st, ast.Expr) and isinstance(st.value, ast.Constant) and isinstance(st.value.value, str):
+            continue
+        if isinstance(st, ast.If) and is_ref_test(st.test, "value"):
+            res["decl"] += [norm(x) for x in st.body]
+            res["always"] += [norm(x) for x in st.orelse]  # not a declaration
+        elif isinstance(st, ast.If) and is_ref_test(st.test, "ref_var"):
+            res["if_ref"] += [norm(x) for x in st.body]
+            res["if_not_ref"] += [norm(x) for x in st.orelse]
+        elif isinstance(st, ast.If):
+            res["other"].append(norm(st))
+        else:
+            res["always"].append(norm(st))
+    return res
+
+
+def translate(ctx):
+    repo = os.environ.get("VERIF_REPO", "/repo")
+    r = scan_scope_set(repo)
+    ctx.extra["scope_set_scan"] = r
+    text = (
+        "/-! Regenerated on every run by `translate` in harness/props/c09.py from the live\n"
+        "`pyanalyze/stacked_scopes.py`: the statements of `FunctionScope.set`, by the condition they run under.\n"
+        "DO NOT EDIT. -/\n"
+        "namespace Pya.C09\n\n"
+        "/-- `value` is a ReferencingValue: the `global` / `nonlocal` declaration itself -/\n"
+        "def setDecl : List String := %s\n\n"
+        "/-- executed for every assignment, whatever backs the name -/\n"
+        "def setAlways : List String := %s\n\n"
+        "/-- only for a name backed by a ReferencingValue (declared `global` / `nonlocal`) -/\n"
+        "def setIfRef : List String := %s\n\n"
+        "/-- only for a name NOT backed by a ReferencingValue -/\n"
+        "def setIfNotRef : List String := %s\n\n"
+        "/-- under some other condition -/\n"
+        "def setOther : List String := %s\n\n"
+        "end Pya.C09\n" % tuple(_lean_strs(r[k]) for k in ("decl", "always", "if_ref", "if_not_ref", "other")))
+    lean.write_if_changed(os.path.join(lean.LEAN, "PyaModel", "Generated", "ScopeSet.lean"), text)
+
+
 # ---------------------------------------------------------------- the check
 def corpus_cases():
     path = os.path.join(lean.HERE, "corpus", "C09.jsonl")
@@ -795,7 +943,11 @@ def corpus_cases():
         for l in open(path):
             l = l.strip()
             if l:
-                out.append(_from_json(json.loads(l)["prog"]))
+                d = json.loads(l)
+                prog = _from_json(d["prog"])
+                # every corpus skeleton is run for every scope kind (or only the one it names)
+                for k in (d["kind"] if "kind" in d else KINDS):
+                    out.append(with_kind(prog, k))
     return out
 
 
@@ -822,24 +974,37 @@ def gen_cases(ctx):
     maxn = ctx.n(4, 5)
     ex = exhaustive(maxn)
     ctx.extra["exhaustive_part"] = "all %d skeletons over x with <= %d statements and at least one use" % (len(ex), maxn)
-    cap = ctx.n(11000, 60000)
+    cap = ctx.n(11000, 48000)
     if len(ex) > cap:
         small = [b for b in ex if sum(1 for _ in walk(b)) <= maxn - 1]
         big = [b for b in ex if sum(1 for _ in walk(b)) == maxn]
         ctx.rng.shuffle(big)
         ex = small + big[:max(0, cap - len(small))]
         ctx.extra["exhaustive_part"] += "; the %d-statement layer sampled down by the seed to %d in total" % (maxn, len(ex))
-    cases += [_renumber(_listify(b)) for b in ex]
-    nrand = ctx.n(6000, 40000)
+    # scope kinds: the skeletons with <= 3 statements are instantiated for every kind; the larger ones get a kind
+    # drawn by the seed (half plain locals, the rest parameters / global / nonlocal)
+    for b in ex:
+        prog = _renumber(_listify(b))
+        if sum(1 for _ in walk(prog)) <= 3:
+            cases += [with_kind(prog, k) for k in KINDS]
+        else:
+            cases.append(with_kind(prog, random_kind(ctx.rng)))
+    nrand = ctx.n(5000, 30000)
     for i in range(nrand):
         r = ctx.rng.random()
         if r < 0.5:
-            cases.append(random_prog(ctx.rng, budget=10, depth=3))
+            q = random_prog(ctx.rng, budget=10, depth=3)
         elif r < 0.85:
-            cases.append(random_prog(ctx.rng, budget=14, depth=4))
+            q = random_prog(ctx.rng, budget=14, depth=4)
         else:
-            cases.append(random_prog(ctx.rng, budget=22, depth=4))
+            q = random_prog(ctx.rng, budget=22, depth=4)
+        cases.append(with_kind(q, random_kind(ctx.rng)))
     return cases
+
+
+def random_kind(rng):
+    r = rng.random()
+    return "l" if r < 0.5 else "p" if r < 0.6 else "g" if r < 0.8 else "n"
 
 
 def _fmt(s):
@@ -891,11 +1056,12 @@ def evaluate(ctx, cases, with_model=True, prop=True, stream="impl"):
         tags = {("has_" + k): 1 for k in kinds if k in ("if", "while", "for", "try", "with", "brk", "cont", "ret", "raise")}
         size = sum(1 for _ in walk(prog))
         tags["size_%s" % (size if size < 10 else "10+")] = 1
+        tags["kind_" + {"l": "local", "p": "param", "g": "global", "n": "nonlocal"}[kind_of(prog)]] = 1
         ctx.count(1, **tags)
         src = text(prog)
         if compound and "asg" in kinds and "use" in kinds:
             ctx.nontriv(src)
-        case = {"src": src, "prog": prog}
+        case = {"src": src, "prog": list(prog), "kind": kind_of(prog)}
         strict = cfg_reaching(prog, False)
         liberal = cfg_reaching(prog, True)
         observed = execute(prog, nbits)
@@ -964,7 +1130,7 @@ def dead_cases(ctx):
     while len(out) < ctx.n(600, 6000):
         p = random_prog(ctx.rng, budget=12, depth=3, allow_dead=True)
         if has_dead_code(p):
-            out.append(p)
+            out.append(with_kind(p, random_kind(ctx.rng)))
     return out
 
 
@@ -995,7 +1161,7 @@ def run_impl_only(ctx):
 
 def replay(ctx, data):
     case = data["case"]
-    prog = _from_json(case["prog"])
+    prog = with_kind(_from_json(case["prog"]), case.get("kind", "l"))
     evaluate(ctx, [prog])
     print(text(prog))
     print(json.dumps({"candidates": [{k: c[k] for k in ("what", "class", "conforms")} for c in ctx.candidates],
